@@ -62,7 +62,9 @@ int MPI_Recv(void* buf, int count, MPI_Datatype dt, int source, int tag, MPI_Com
     int rc = PMPI_Recv(buf, count, dt, source, tag, comm, status); tr(source == MPI_ANY_SOURCE ? "recv_any" : "recv", source, tag, comm, count); return rc;
 }
 int MPI_Isend(const void* buf, int count, MPI_Datatype dt, int dest, int tag, MPI_Comm comm, MPI_Request* req) {
-    init_sched(); maybe_delay(); tr("isend", dest, tag, comm, count); return PMPI_Isend(buf, count, dt, dest, tag, comm, req);
+    init_sched(); maybe_delay();
+    if (sched_on && late_us > 0 && (rnd() % 8) == 0) usleep((useconds_t)(rnd() % (unsigned)late_us));      /* a message that is sent much later than its neighbours */
+    tr("isend", dest, tag, comm, count); return PMPI_Isend(buf, count, dt, dest, tag, comm, req);
 }
 int MPI_Send(const void* buf, int count, MPI_Datatype dt, int dest, int tag, MPI_Comm comm) {
     init_sched(); maybe_delay(); tr("send", dest, tag, comm, count); return PMPI_Send(buf, count, dt, dest, tag, comm);
